@@ -53,6 +53,9 @@ theorem SL_storeErasePublish {l} (id) (h : SL K l) : SL K (storeErasePublish id 
   unfold validateTopicAlias; (repeat' split) <;> rfl
 @[simp] theorem decSendCount_store (c : C) : (decSendCount c).s.store = c.s.store := by
   unfold decSendCount; split <;> rfl
+@[simp] theorem releasePacketId_store (c : C) (id) : (releasePacketId c id).s.store = c.s.store :=
+  releasePacketId_ind (Q := fun c' => c'.s.store = c.s.store) c id (releaseIfUsed_store c id) (fun h => h)
+    (fun h => (decSendCount_store _).trans h)
 @[simp] theorem autoAlias_store (c : C) (p) : (autoAlias c p).1.s.store = c.s.store := by
   unfold autoAlias; (repeat' split) <;> simp [apply_ite Prod.fst, apply_ite C.s, apply_ite St.store]
 @[simp] theorem connectSendProp_store (c : C) (id v) : (connectSendProp c id v).s.store = c.s.store := by
